@@ -25,6 +25,8 @@ def main(tier, replay=None):
                                  evo=0, modes=("enc",), invariants=("InBounds", "EncRefines", "ChunkShape"))
         designlevel.codec_design(rep, "U_small depth1 wide enc", depth=1, caps=(1, 2, 6), leafset="wide",
                                  evo=0, modes=("enc",), invariants=("InBounds", "EncRefines", "ChunkShape"))
+    # unbounded: the chunk arithmetic for every width and stream position (Apalache, inductive invariant)
+    designlevel.copy_loop_unbounded(rep)
     # --- conformance: U_rand schemas x values through the real compiler + runtime ---
     nschemas, nvalues = (300, 6) if tier == "quick" else (4000, 16)
     rec = drive.StepRecorder()
